@@ -1,6 +1,6 @@
 H("c18_env", "C18", "seq", ["harness/c18_env.cc"], sdk=["common"],
   what="real Get{Bool,Uint,Duration,Float,String}EnvironmentVariable and GetSdkDisabled over per-reader string generators (all letter cases, boundary and 25-digit numbers, "
-       "every unit, signs, blanks, junk, single (thorough: double) point mutations) crossed with errno on entry in {0, ERANGE}, against a three-valued reference "
+       "every unit, signs, blanks, junk, single and restricted double point mutations) crossed with errno on entry in {0, ERANGE}, against a three-valued reference "
        "(documented syntax => exact value, libc leniency => exact value or default, anything else => default); signed overflow traps via UBSan",
   design_ref="5/C18")
 H("c18_resource", "C18", "seq", ["harness/c18_resource.cc"], sdk=["common", "version", "resource"],
